@@ -703,3 +703,36 @@ def shared_mutable_values(func: ast.AST) -> List[str]:
                 if muts or stores:
                     out.append(f"mutable default {p_.arg}={ast.unparse(d)} is mutated in the body")
     return out
+
+
+def generators_consumed_twice(func: ast.AST) -> List[str]:
+    """names bound only to generator expressions (or map / filter / zip results) that are fully CONSUMED more than once - by a `for` loop or by
+    list / len(list()) / sum / sorted / set / tuple / any / all / max / min: the second consumer sees nothing.  Wrapping the generator in
+    another generator (chaining) and stepping it with next() are not consumptions."""
+    gens: Dict[str, List[ast.expr]] = {}
+    other: Set[str] = set()
+    for t, v, s_ in assignments(func, nested=False):
+        if isinstance(t, ast.Name):
+            if isinstance(v, ast.GeneratorExp) or (isinstance(v, ast.Call) and call_name(v) in ("map", "filter", "zip")):
+                gens.setdefault(t.id, []).append(v)
+            else:
+                other.add(t.id)
+    parent = {id(ch): n for n in ast.walk(func) for ch in ast.iter_child_nodes(n)}
+    eaters = {"list", "sum", "sorted", "set", "tuple", "any", "all", "max", "min", "dict", "frozenset", "len"}
+    out = []
+    for name, defs in gens.items():
+        if name in other:
+            continue
+        uses = []
+        for n in walk_no_nested(func):
+            if isinstance(n, ast.Name) and n.id == name and isinstance(n.ctx, ast.Load):
+                p_ = parent.get(id(n))
+                if isinstance(p_, ast.For) and p_.iter is n:
+                    uses.append(n)
+                elif isinstance(p_, ast.Call) and isinstance(p_.func, ast.Name) and p_.func.id in eaters and n in p_.args:
+                    uses.append(n)
+                elif isinstance(p_, ast.Call) and isinstance(p_.func, ast.Attribute) and p_.func.attr in ("extend", "update", "join") and n in p_.args:
+                    uses.append(n)
+        if len(uses) > 1:
+            out.append(f"`{name}` is a generator ({' '.join(ast.unparse(defs[0]).split())[:50]}) consumed at lines {sorted(n.lineno for n in uses)}")
+    return out
